@@ -54,15 +54,15 @@ Definition check_stream : rd verdict :=
     fold_left (fun acc c => if c_out c =? -1 then (match acc with None => Some (c_end c) | Some e => Some (Z.min e (c_end c)) end) else acc)
               calls None in
   ret (combine_verdicts
-    [ prop_ok 10 (nodupz got) [Z.of_nat (length got)];
+    [ prop_ok 15 (negb raced) [];
+      prop_ok 10 (nodupz got) [Z.of_nat (length got)];
       prop_ok 11 (forallb (fun x => x <? n) got && (Z.of_nat (length got) =? n)) [Z.of_nat (length got); n];
       prop_ok 12 (forallb (fun c => negb (c_out c =? -3)) calls) [];
       prop_ok 13 (forallb (fun c => negb (c_out c =? -2)) calls) [];
       (* once some call has reported exhaustion, every call that starts later reports it too *)
       prop_ok 14 (match first_exhausted_end with
                   | None => true
-                  | Some e => forallb (fun c => negb (e <? c_start c) || (c_out c =? -1)) calls end) [];
-      prop_ok 15 (negb raced) [] ]).
+                  | Some e => forallb (fun c => negb (e <? c_start c) || (c_out c =? -1)) calls end) [] ]).
 
 Definition check_static : rd verdict :=
   k <- getz ;; draws <- getlist getz ;; raced <- getbool ;;
